@@ -403,9 +403,44 @@ func (bg *Background) dischargeOne(o *Obligation, cfg SolverConfig, dir, id stri
 		o.Seconds = total
 		return
 	}
-	if try(solvers[1], cfg.TimeoutSec) || try(solvers[2], cfg.TimeoutSec) {
-		o.Seconds = total
-		return
+	// stage 2: the other two solvers side by side (a goal that only one of them decides no longer waits for the other's time-out)
+	{
+		type ans struct {
+			sp       solverSpec
+			res, out string
+			el       float64
+		}
+		ch := make(chan ans, 2)
+		for _, sp := range []solverSpec{solvers[1], solvers[2]} {
+			go func(sp solverSpec) {
+				script := scriptZ3
+				if sp.cvc5 {
+					script = bg.BuildScript(o, true)
+				}
+				res, out, el := runSolver(sp, script, dir, id, cfg.TimeoutSec)
+				ch <- ans{sp, res, out, el}
+			}(sp)
+		}
+		maxEl := 0.0
+		done := false
+		for i := 0; i < 2; i++ {
+			a := <-ch
+			if a.el > maxEl {
+				maxEl = a.el
+			}
+			o.Outputs[a.sp.name] = a.out
+			if a.res == "unsat" && !done {
+				o.Result, o.Solver = "unsat", a.sp.name
+				done = true
+			} else if !done && (o.Result == "" || o.Result == "error" || a.res == "sat") {
+				o.Result = a.res
+			}
+		}
+		total += maxEl
+		if done {
+			o.Seconds = total
+			return
+		}
 	}
 	if first < cfg.TimeoutSec {
 		try(solvers[0], cfg.TimeoutSec)
